@@ -3,6 +3,7 @@ import Pyunicorn.Model.Nsi
 import Pyunicorn.Model.NsiMeasures
 import Pyunicorn.Model.NsiBetw
 import Pyunicorn.Model.NetBetw
+import Pyunicorn.Model.NsiRw
 /-! Line-protocol driver for C02. -/
 open Pyunicorn Pyunicorn.Proto Pyunicorn.Nsi
 
@@ -50,14 +51,43 @@ def betwAll (G : Gr) : String :=
   let idx := List.range G.n
   let S := fun i => G.grp 0 i
   let T := fun i => G.grp 1 i
-  let tab : List (List (Option Nat)) := idx.map fun a => idx.map fun b => bfsDist G a b
-  let Gb : Gr := { G with dist := fun a b => (tab.getD a []).getD b none }
+  let Gb : Gr := withBfs G
   let d1 := idx.map fun i => nsiBetw G S T i
   let d2 := idx.map fun i => nsiBetw Gb S T i
   let k := Pyunicorn.NetBetw.nsiBetweenness G.n G.adj G.w (idx.map S) (idx.filter T)
   let dok := idx.all fun i => idx.all fun j => G.dist i j == Gb.dist i j
   "def=" ++ showRats d1 ++ "|defbfs=" ++ showRats d2 ++ "|kernel=" ++ showRats k ++
     "|distok=" ++ (if dok then "1" else "0")
+
+/-- round 4: the linear-algebraic measures (`Model/NsiRw.lean`) in exact rationals: Newman-type
+betweenness (both values of `add_local_ends`) with the code's grounded inverse and the flag
+"the hypotheses SolvesL / SolvesR of `nsi_newman_betweenness_split` hold for it"; Arenas-type
+betweenness in all four argument patterns with the flag "every V_i solves its system";
+`nsi_laplacian`; the moments of `nsi_spreading` and its default `alpha`; the bin layout of the
+n.s.i. degree histograms. -/
+def rwAll (G : Gr) (K : Nat) : String :=
+  let idx := List.range G.n
+  let opt (o : Option (List Rat)) : String := match o with | some l => showRats l | none => "singular"
+  let one : Nat → Nat → Rat := fun _ _ => 1
+  let tw : Nat → Nat → Rat := fun a b => eval G [a, b] M.nsiTwinness
+  let ar (sg : Nat → Nat → Rat) (excl : Bool) : String × Bool :=
+    match arenasAll G sg excl with
+    | some (l, ok) => (showRats l, ok)
+    | none => ("singular", false)
+  let a1 := ar one true
+  let a2 := ar one false
+  let a3 := ar tw true
+  let a4 := ar tw false
+  "newman=" ++ opt (newmanAll G false) ++ "|newman_ends=" ++ opt (newmanAll G true) ++
+    "|solves=" ++ (if newmanSolves G then "1" else "0") ++
+    "|arenas=" ++ a1.1 ++ "|arenas_incl=" ++ a2.1 ++ "|arenas_twin=" ++ a3.1 ++
+    "|arenas_incl_twin=" ++ a4.1 ++
+    "|arenas_ok=" ++ (if a1.2 && a2.2 && a3.2 && a4.2 then "1" else "0") ++
+    "|lap=" ++ showRats (idx.flatMap fun i => idx.map fun j => nsiLap G i j) ++
+    "|alpha=" ++ showRats [spreadAlpha G] ++
+    "|moments=" ++ showRatMat (spreadMoments G K) ++
+    "|nbins=" ++ toString (histNBins G) ++
+    "|lbb=" ++ showRats (histLowerBounds G)
 
 def answer (toks : List String) : String :=
   match toks with
@@ -94,6 +124,12 @@ def answer (toks : List String) : String :=
        | some a, some b =>
           betwAll (split (split (mkGr n adj w la0 la1 g0 g1 dist) v1.toNat! a) v2.toNat! b)
        | _, _ => "bad-p")
+  | ["rw", k, n, adj, w, la0, la1, g0, g1, dist] =>
+      rwAll (mkGr n adj w la0 la1 g0 g1 dist) k.toNat!
+  | ["rwsplit", k, v, p, n, adj, w, la0, la1, g0, g1, dist] =>
+      (match rat? p with
+       | some pp => rwAll (split (mkGr n adj w la0 la1 g0 g1 dist) v.toNat! pp) k.toNat!
+       | none => "bad-p")
   | _ => "bad-request"
 
 def main : IO Unit := runDriver answer
